@@ -17,6 +17,7 @@
 import Mxj.Lemmas.Facts
 import Mxj.Generated.Facts
 import Mxj.Lemmas.Json
+import Mxj.Lemmas.Conc
 namespace Mxj.C17
 open Mxj
 
@@ -75,5 +76,40 @@ example : Facts.writesOf "SetFieldSeparator" ≠ [] := by decide
 example : Facts.Reach "Map.Xml" "Map.Xml" := .refl _
 example : Facts.writesOf "Map.Xml" = [] :=
   C17_readonly_no_global_write "Map.Xml" "Map.Xml" (by decide) (.refl _)
+
+/-! ### goroutines over shared read-only state
+
+  The model `Mxj.Model.Conc`: a call in progress is a list of atomic steps, each reading the
+  shared state `g` and updating only the call's own local state; a schedule is the order in which
+  goroutines take their next step.  That the read-only API has this shape is what
+  `C17_readonly_no_global_write` (package variables) and the harness's receiver-immutability
+  oracle (the shared Map) establish.  **Partial**: the theorem is about this abstraction, not about
+  Go's memory model; the race detector run of the thorough tier is the dynamic counterpart. -/
+
+/-- under EVERY schedule (any length, any order, goroutines starved or not) the result each
+    goroutine will have once it has finished is the result of running it alone -/
+theorem C17_interleaving_independent {G L : Type} (g : G) (ts : List (Conc.Th G L))
+    (schedule : List Nat) :
+    (Conc.exec g ts schedule).map (Conc.runTh g) = ts.map (Conc.runTh g) :=
+  Conc.exec_results g schedule ts
+
+/-- in particular, once a schedule has run every goroutine to completion, each one holds exactly
+    its sequential result -/
+theorem C17_concurrent_eq_sequential {G L : Type} (g : G) (ts : List (Conc.Th G L))
+    (schedule : List Nat) (hdone : Conc.done (Conc.exec g ts schedule) = true) :
+    (Conc.exec g ts schedule).map (·.loc) = ts.map (Conc.runTh g) := by
+  rw [← C17_interleaving_independent g ts schedule]
+  apply List.map_congr_left
+  intro t ht
+  have : t.todo.isEmpty = true := by
+    unfold Conc.done at hdone
+    exact List.all_eq_true.1 hdone t ht
+  exact (Conc.runTh_done g t this).symm
+
+/-- non-vacuity: two goroutines of two steps each reading the shared value, interleaved -/
+example :
+    let t1 : Conc.Th Nat (List Nat) := ⟨[], [fun g l => g :: l, fun g l => (g + 1) :: l]⟩
+    let t2 : Conc.Th Nat (List Nat) := ⟨[], [fun g l => (2 * g) :: l, fun _ l => 0 :: l]⟩
+    (Conc.exec 7 [t1, t2] [1, 0, 0, 1]).map (·.loc) = [[8, 7], [0, 14]] := by decide
 
 end Mxj.C17
